@@ -104,18 +104,19 @@ func (a *AttrConditionPlanner) aggregator(main sql.ISelect) error {
 		return nil
 	}
 
-	if strings.HasPrefix(a.AggregatedAttr, "span.") {
-		a.AggregatedAttr = a.AggregatedAttr[5:]
+	attr := a.AggregatedAttr
+	if strings.HasPrefix(attr, "span.") {
+		attr = attr[5:]
 	}
-	if strings.HasPrefix(a.AggregatedAttr, "resource.") {
-		a.AggregatedAttr = a.AggregatedAttr[9:]
+	if strings.HasPrefix(attr, "resource.") {
+		attr = attr[9:]
 	}
-	if strings.HasPrefix(a.AggregatedAttr, ".") {
-		a.AggregatedAttr = a.AggregatedAttr[1:]
+	if strings.HasPrefix(attr, ".") {
+		attr = attr[1:]
 	}
-	s = append(s, sql.NewCol(&sqlAttrValue{a.AggregatedAttr}, "agg_val"))
+	s = append(s, sql.NewCol(&sqlAttrValue{attr}, "agg_val"))
 	main.Select(s...)
-	a.where = append(a.where, sql.Eq(sql.NewRawObject("key"), sql.NewStringVal(a.AggregatedAttr)))
+	a.where = append(a.where, sql.Eq(sql.NewRawObject("key"), sql.NewStringVal(attr)))
 	return nil
 }
 
